@@ -76,7 +76,7 @@ pub fn run(_seed: u64, _tier: &str, out: &mut Out) {
         }
         std::mem::forget(keep); std::mem::forget(other); std::mem::forget(mp);
         let _ = ProgressFinish::AndLeave;
-        out.emit(&format!("LOCKS FX={} {} {} {}", std::env::var("VERIF_FX").unwrap_or_default(), call, if in_multi { "multi" } else { "single" }, if ticker { "ticker" } else { "noticker" }), &format!("{trace} ORACLE {verdict}"));
+        out.emit(&format!("LOCKS FX={} {} {} {}", crate::common::fx("locks"), call, if in_multi { "multi" } else { "single" }, if ticker { "ticker" } else { "noticker" }), &format!("{trace} ORACLE {verdict}"));
     }}}
     vh::set_observer(None);
 }
